@@ -51,8 +51,9 @@ def train_on_grid(draw, n, pool, earlier, max_spikes, related=False):
         # code paths that switch algorithm for long inputs are reached
         k = draw(st.integers(33, min(n + 1, 72)))
         style = draw(st.sampled_from(["spread", "early", "late"]))
-        lo, hi = (0, n) if style == "spread" else ((0, max(k, n // 2)) if style == "early"
-                                                   else (min(n - k, n // 2), n))
+        lo, hi = (0, n) if style == "spread" else \
+            ((0, min(n, max(k - 1, n // 2))) if style == "early"
+             else (max(0, min(n - k + 1, n // 2)), n))
         return _uniq_sorted(draw(st.lists(st.integers(lo, hi), min_size=k, max_size=k,
                                           unique=True)))
     if related and earlier and any(earlier):
